@@ -8,6 +8,7 @@ command -v cargo >/dev/null
 cargo kani --version >/dev/null
 command -v z3 >/dev/null
 command -v cvc5 >/dev/null
+command -v z3-new >/dev/null
 python3 -c 'import json,re,subprocess' 
 chmod +x check tools/*.py 2>/dev/null || true
 echo "verif setup ok"
